@@ -114,7 +114,7 @@ func genMainModule(ctx *context, rtPkgPath string, pkg *packages.Package, cfg *g
 }
 
 func filterAbiSymbol(abiInit int, sym *llssa.AbiSymbol) bool {
-	switch sym.Raw.(type) {
+	switch types.Unalias(sym.Raw).(type) {
 	case *types.Array:
 		if abiInit&llssa.ReflectArrayOf != 0 {
 			return true
